@@ -20,21 +20,18 @@ namespace PrecondVerif.OCO
 abbrev Vec (α : Type) (n : Nat) := Fin n → α
 abbrev Mat (α : Type) (m n : Nat) := Fin m → Fin n → α
 
-/-- tabulate a vector (identity function; keeps evaluation polynomial) -/
-def force {α : Type} {n : Nat} (v : Vec α n) : Vec α n :=
-  let a := Vector.ofFn v
-  fun i => a[i.1]'i.2
+/-- Marks the places where the Python code materialises an array. It is the identity: a tabulation
+`let a := Vector.ofFn v; fun i => a[i]` is eta-expanded by the Lean 4.33 compiler (the table would be rebuilt on
+every entry access, which made a 10-step history take minutes), so none is attempted; the driver keeps
+evaluation polynomial by decoding every state from concrete arrays. -/
+@[inline] def force {α : Type} {n : Nat} (v : Vec α n) : Vec α n := v
 
-@[simp] theorem force_eq {α : Type} {n : Nat} (v : Vec α n) : force v = v := by
-  funext i; simp [force]
+@[simp] theorem force_eq {α : Type} {n : Nat} (v : Vec α n) : force v = v := rfl
 
-/-- tabulate a matrix (identity function) -/
-def forceM {α : Type} {m n : Nat} (A : Mat α m n) : Mat α m n :=
-  let a := Vector.ofFn fun i => Vector.ofFn (A i)
-  fun i j => (a[i.1]'i.2)[j.1]'j.2
+/-- the same marker for matrices (identity) -/
+@[inline] def forceM {α : Type} {m n : Nat} (A : Mat α m n) : Mat α m n := A
 
-@[simp] theorem forceM_eq {α : Type} {m n : Nat} (A : Mat α m n) : forceM A = A := by
-  funext i j; simp [forceM]
+@[simp] theorem forceM_eq {α : Type} {m n : Nat} (A : Mat α m n) : forceM A = A := rfl
 
 section Generic
 variable {α : Type} [Zero α] [One α] [Add α] [Sub α] [Mul α] [Div α]
